@@ -67,6 +67,7 @@ type world struct {
 	serveRes          string
 	sdStarted, sdDone bool
 	ownerClosed       bool
+	checkedAfterSd    bool
 	timerFired        bool
 	rnd               *rand.Rand
 	nconn             int
@@ -611,6 +612,22 @@ func runOne(t *testing.T, w *vh.Writer, sc Schedule, seed int64, randomSteps int
 			if len(parked) > 0 {
 				wd.release(parked[wd.rnd.Intn(len(parked))])
 				continue
+			}
+			if wd.sdDone && !wd.checkedAfterSd {
+				// Shutdown has returned and nothing is parked: whatever goroutine of a connection has not ended now waits for its client
+				wd.checkedAfterSd = true
+				var alive [][]string
+				for role, at := range wd.positions() {
+					if at == "" || strings.HasPrefix(role, "0.") {
+						continue
+					}
+					if at != "hc.exit!" && at != "rl.exit!" && at != "wl.exit!" && at != "done" && at != "done!" {
+						alive = append(alive, []string{role, at})
+					}
+				}
+				if len(alive) > 0 {
+					wd.w.Emit(map[string]any{"ev": "obs", "kind": "alive-after-shutdown", "blocked": alive})
+				}
 			}
 			progressed := false
 			for c := 1; c <= wd.nconn; c++ {
